@@ -243,9 +243,9 @@ theorem o0_decgood : DecGoodOK o0 := by
   · intro nm t h
     simp only [o0] at h
     split at h
-    · cases h; simp [DescOK, zsTy, RegOK, o0, Ty.composite, zsName]
+    · cases h; simp [DescOK, zsTy, RegOK, o0, Ty.closed, zsName]
     · split at h
-      · cases h; simp [DescOK, pTy, RegOK, o0, Ty.composite, pName, zsName]
+      · cases h; simp [DescOK, pTy, RegOK, o0, Ty.closed, pName, zsName]
       · simp at h
 
 /-- non-vacuity: the hypotheses hold for the packet of the previous example; `Side` is all that is asked of the value -/
